@@ -115,6 +115,12 @@ class IterBench:
                     if not obs.cancelled:
                         obs.callback(m)
                     else:
+                        # a feeder ClientObservation rules out; the future `push` replaces may hold
+                        # an exception nobody fetched, which asyncio would report on stderr when it
+                        # is collected: look at it first (changes nothing for the iterator)
+                        f = it._future
+                        if f.done() and not f.cancelled():
+                            f.exception()
                         it.push(m)
                 elif op[0] == "E":
                     e = self.exc(op[1:])
